@@ -128,6 +128,58 @@ def runC : CState → List Act → CState × List (Option Res)
   | s, [] => (s, [])
   | s, a :: r => let (s', o) := stepC s a; let (s'', os) := runC s' r; (s'', o :: os)
 
+/-! ### sync.RWMutex sections (round 4b)
+
+  The registry's readers (Get / Has / Range) run under `RLock`: several of them may be inside their critical sections
+  at once, and one section reads the map several times (Range walks it).  `RWAct` is that finer-grained code:
+  a reader enters (`rlock`), reads the shared state any number of times (`read`: each read answers from the state as
+  it is at that moment) and leaves (`runlock`); a writer's whole Lock … Unlock section is one step that is only
+  possible while no reader is inside (`write`).  C14.rw_reads_stable / rw_section_result / rw_run_atomic show that
+  this code is an execution of the atomic-step model above (`Act.atomic`), i.e. that treating the RWMutex as if every
+  section were one atomic step loses nothing. -/
+
+inductive RWAct
+  | rlock (tid : Nat)
+  | read (tid : Nat) (op : Op)
+  | runlock (tid : Nat)
+  | write (tid : Nat) (op : Op)
+deriving DecidableEq, Repr
+
+structure RWState where
+  σ : St
+  readers : List Nat        -- threads inside a read section
+deriving DecidableEq, Repr
+
+/-- one step under sync.RWMutex semantics; `none`: the step is not possible in this state (a writer while readers are
+    inside, a read outside the thread's own section, a read section running a mutating operation) -/
+def stepRW (s : RWState) : RWAct → Option (RWState × Option Res)
+  | .rlock tid => some ({ s with readers := tid :: s.readers }, none)
+  | .read tid op => if s.readers.contains tid && op.readOnly then some (s, some (apply s.σ op).2) else none
+  | .runlock tid => if s.readers.contains tid then some ({ s with readers := s.readers.erase tid }, none) else none
+  | .write _ op => if s.readers.isEmpty then some ({ s with σ := (apply s.σ op).1 }, some (apply s.σ op).2) else none
+
+def runRW : RWState → List RWAct → Option (RWState × List (Option Res))
+  | s, [] => some (s, [])
+  | s, a :: r =>
+    match stepRW s a with
+    | none => none
+    | some (s', o) =>
+      match runRW s' r with
+      | none => none
+      | some (s'', os) => some (s'', o :: os)
+
+/-- the same code seen by the atomic-step model: every read and every write section is one `Act.atomic`; entering and
+    leaving a read section are not steps -/
+def atomise : List RWAct → List Act
+  | [] => []
+  | .rlock _ :: r => atomise r
+  | .runlock _ :: r => atomise r
+  | .read tid op :: r => .atomic tid op :: atomise r
+  | .write tid op :: r => .atomic tid op :: atomise r
+
+/-- the results of the calls, in the order they were produced -/
+def outputs (os : List (Option Res)) : List Res := os.filterMap id
+
 /-! ### histories and linearizability -/
 
 structure Call where
